@@ -72,7 +72,8 @@ def requirements(tier):
     req = {"tree:histories": 60000 if tier == "quick" else 900000, "tree:insertion-checks": 300000, "tree:pair-checks": 5000000,
            "graph:histories": 10000, "graph:pair-checks": 200000, "registry:registrations": 100, "registry:probe-comparisons": 10000,
            "registry:new-frame-roundtrips": 1000, "registry:origin-checks": 30, "registry:nested-orbit-frame": 10,
-           "registry:name-differs-by-case-only": 10, "registry:name-registered-again-under-another-parent": 5}
+           "registry:name-differs-by-case-only": 10, "registry:name-registered-again-under-another-parent": 5,
+           "registry:name-asked-before-it-exists": 30, "registry:unconnected-frame-reported": 40, "registry:user-orientation-linked-roundtrips": 20}
     return req
 
 
@@ -306,6 +307,15 @@ def case_registry(ctx, job, idx, rng, st):
             name = rng.choice(twins)
             ctx.count("registry:name-differs-by-case-only")
         w = {"scenario": idx, "step": step, "kind": kind, "registered_before": list(registered)}
+        if kind != "body" and name not in registered and rng.random() < 0.5:
+            # history: the name is asked for BEFORE it exists (a conversion attempted too early): it is reported as unknown,
+            # and that refusal must not outlive the registration that follows (judged by the conversions of step (2))
+            coord, d = states[step % 3]
+            try:
+                res = StateVector(coord, d, "cartesian", "EME2000").copy(frame=name)
+                ctx.violation("C20/unknown-frame-name-not-reported", dict(w, name=name, got=probe.arr(res).tolist()), f"conversion to the unknown frame name {name!r} returned a state")
+            except Exception:
+                ctx.count("registry:name-asked-before-it-exists")
         try:
             if kind == "station":
                 create_station(name, (rng.uniform(-89, 89), rng.uniform(-180, 360), rng.uniform(-400, 9000)))
@@ -375,7 +385,58 @@ def case_registry(ctx, job, idx, rng, st):
             registered.append(name)
             if kind == "station":
                 station_names.append(name)
+    unlinked_orientation_scenario(ctx, idx, rng, states, registered)
     reparent_scenario(ctx, idx, rng, states, station_names)
+
+
+def unlinked_orientation_scenario(ctx, idx, rng, states, registered):
+    """A frame built by the user on an orientation that is not linked to anything yet (its centre is the Earth, which IS
+    connected): conversions between it and connected frames -- built-in, station, orbit frame -- are reported (any exception),
+    never answered.  Same for the Hill frame, whose orientation is outside the graph.  Once the orientation is linked, the
+    conversions exist and round-trip."""
+    from beyond.frames.frames import Frame, get_frame
+    from beyond.frames.orient import Orientation
+    from beyond.frames import orient, center
+    from beyond.orbits import StateVector
+    from beyond.utils.matrix import rot3
+
+    oname = f"VmonC20Unlinked{idx}"
+    user_orient = Orientation(oname)
+    user = Frame(f"VmonC20User{idx}", user_orient, center.Earth)
+    coord, d = states[0]
+    others = rng.sample(BUILTIN, 3) + (rng.sample(registered, min(2, len(registered))) if registered else [])
+    w = {"scenario": idx, "user_frame": user.name, "orientation": oname}
+    for other in others:
+        for direction in ("to", "from"):
+            try:
+                if direction == "to":
+                    res = StateVector(coord, d, "cartesian", "EME2000").copy(frame=other).copy(frame=user)
+                else:
+                    res = StateVector(coord, d, "cartesian", user).copy(frame=other)
+            except Exception:
+                ctx.count("registry:unconnected-frame-reported")
+                continue
+            ctx.violation("C20/frames-with-unconnected-orientations-converted-without-report", dict(w, other=other, direction=direction, got=probe.arr(res).tolist()),
+                          f"{'->'.join((other, user.name) if direction == 'to' else (user.name, other))}: the orientations are not connected, yet a state was returned")
+    try:
+        res = StateVector(coord, d, "cartesian", "EME2000").copy(frame="Hill")
+        ctx.violation("C20/frames-with-unconnected-orientations-converted-without-report", dict(w, other="Hill", got=probe.arr(res).tolist()), "EME2000 -> Hill returned a state")
+    except Exception:
+        ctx.count("registry:unconnected-frame-reported")
+    # linked now: a fixed rotation about z with respect to EME2000
+    ang = rng.uniform(0.1, 3.0)
+    setattr(Orientation, f"{oname}_to_EME2000", lambda self, date, ang=ang: (rot3(ang), None))
+    orient.EME2000 + user_orient
+    for other in others:
+        try:
+            sv = StateVector(coord, d, "cartesian", "EME2000").copy(frame=other)
+            back = probe.arr(sv.copy(frame=user).copy(frame=other))
+        except Exception as exc:
+            ctx.violation("C20/new-frame-cannot-reach-existing", dict(w, other=other, exc=repr(exc)), f"{user.name} (orientation linked now) <-> {other}: {exc!r}")
+            continue
+        diff = float(np.linalg.norm(back[:3] - probe.arr(sv)[:3]))
+        ctx.count("registry:user-orientation-linked-roundtrips")
+        ctx.resid("registry:user-orientation-roundtrip", diff, 1e-5 + 1e-12 * 1.6e11, key="C20/new-frame-roundtrip", witness=dict(w, other=other, diff=diff))
 
 
 def reparent_scenario(ctx, idx, rng, states, registered_stations):
